@@ -12,6 +12,17 @@ try:
 except Exception:
     pass
 TEXT = json.load(open(os.path.join(V, "tools/manifest_text.json")))
+DESC = {d["ID"]: d for d in json.loads(subprocess.check_output([os.path.join(V, "bin/verifchk"), "-describe"], text=True))}
+def level_text(i):
+    d = DESC.get(i)
+    if not d:
+        return "structural necessary conditions of the property, decided statically on every path of the current source"
+    return ("Static necessary conditions (level 'other'): every listed clause is decided on all paths of the current source, not on sampled runs; the behavioural statement as a whole is not decided. " + d["Explain"])
+def level_note(i):
+    d = DESC.get(i)
+    if not d:
+        return ""
+    return ("Not decided: " + "; ".join(d["NotDecided"] or []) + ". Assumed: " + "; ".join(d["Assume"] or []) + ". Trusted base: " + "; ".join(d["Trusted"] or []) + ". Thorough tier adds a 4-configuration build matrix and %d witness mutants that must each be reported." % len(d["Mutants"] or []))
 checks, na = [], []
 for p in props:
     i = p["id"]
@@ -26,10 +37,10 @@ for p in props:
             "engine": "verifchk",
             "level_claimed": {
                 "category": "other",
-                "text": t.get("text", "structural necessary conditions of the property, decided statically on every path of the current source"),
+                "text": t.get("text") or level_text(i),
                 "design_ref": f"DESIGN.md §4 {i}",
             },
-            "level_note": t.get("note", "Trusted: go/types, go/ssa, the rule implementations; third-party libraries are opaque. The behavioural statement itself is not decided."),
+            "level_note": t.get("note") or level_note(i),
             "technique": t.get("technique", "static analysis: custom go/ssa + go/types rules (dominance, must-pass-through, lockset, table agreement)"),
         })
     else:
